@@ -21,6 +21,10 @@ import signonetime
 import signapp
 
 
+import os
+KMAX = 300 if os.environ.get("VERIF_TIER") == "thorough" else 40
+
+
 def record(count_addr_type_data):
     b = bytes(count_addr_type_data)
     cs = (-sum(b)) & 0xff
@@ -117,12 +121,12 @@ class MemFS:
 
 
 @obligation(tier="quick", parts=len(IMAGES), timeout=200, part_names=lambda i: IMAGES[i][0],
-            bounds="8 catalogue images (partition); a symbolic cut position 1..40 and a second one derived from it (k+1 | 2k+1 | 255) decide "
+            bounds="8 catalogue images (partition); a symbolic cut position 1..40 (T: 1..300) and a second one derived from it (k+1 | 2k+1 | 255) decide "
                    "where every area is cut into records; the same image is hashed with these cuts and with no cuts",
             examples=[(i, dict(k1=3, k2=1)) for i in range(len(IMAGES))])
 def app_hash(k1: int, k2: int) -> bool:
     """
-    pre: 1 <= k1 <= 40 and 0 <= k2 <= 2
+    pre: 1 <= k1 <= KMAX and 0 <= k2 <= 2
     post: _
     """
     from sim.base import _realize
